@@ -252,6 +252,146 @@ def small_scope_families():
     return progs
 
 
+# ------------------------------------------------------------------------------------------------ attribute rules and the module rule
+ATTR_POOL = [("deprecated", []), ("deprecated", ["use the other one"]), ("deprecated", ["a", "b"]), ("allow", ["All"]), ("allow", ["Deprecated", "BrokenDocLink"]), ("allow", []),
+             ("allow", ["deprecated"]), ("allow", ["DuplicateFile"]), ("allow", ["Nope", "All"]), ("oneway", []), ("oneway", ["x"]), ("compress", ["Args"]), ("compress", ["Args", "Return"]),
+             ("compress", []), ("compress", ["Zip"]), ("compress", ["Return", "return"]), ("slicedFormat", ["Return"]), ("slicedFormat", ["args"]), ("slicedFormat", []), ("nosuch", []),
+             ("x::foreign", ["any thing", ""]), ("Deprecated", []), ("cs::attribute", []), ("allow", ["MalformedDocComment", "IncorrectDocComment"])]
+
+
+def attribute_sites(prog):
+    """every place of the program where an attribute can be written: (place, returns, the list to append to)"""
+    sites = []
+
+    def tref(t):
+        sites.append(("TypeRef", False, t["attrs"]))
+        for k in ("e", "key", "val", "ok", "err"):
+            if k in t:
+                tref(t[k])
+    for f in prog["files"]:
+        f.setdefault("fattrs", [])
+        f.setdefault("mattrs", [])
+        sites.append(("SliceFile", False, f["fattrs"]))
+        sites.append(("Module", False, f["mattrs"]))
+        for d in f["defs"]:
+            k = d["kind"]
+            sites.append(({"struct": "Struct", "enum": "Enum", "interface": "Interface", "custom": "CustomType", "alias": "TypeAlias"}[k], False, d["attrs"]))
+            if k == "struct":
+                for m in d["fields"]:
+                    sites.append(("Field", False, m["attrs"]))
+                    tref(m["type"])
+            elif k == "enum":
+                for e in d["enumerators"]:
+                    sites.append(("Enumerator", False, e["attrs"]))
+                    for m in e["fields"] or []:
+                        sites.append(("Field", False, m["attrs"]))
+                        tref(m["type"])
+            elif k == "interface":
+                for b in d["bases"]:
+                    pass    # attributes on a base reference are not written by the renderer
+                for o in d["ops"]:
+                    sites.append(("Operation", len(o["returns"]) > 0, o["attrs"]))
+                    for m in o["params"]:
+                        sites.append(("Parameter", False, m["attrs"]))
+                        tref(m["type"])
+                    for m in o["returns"]:
+                        if len(o["returns"]) != 1:
+                            sites.append(("Parameter", False, m["attrs"]))     # a single return value is written without a member of its own
+                        tref(m["type"])
+            elif k == "alias":
+                tref(d["type"])
+    return sites
+
+
+def attribute_stream(ck):
+    import random
+    from .. import slicegen
+    rng = ck.rng
+    n = 1500 if ck.tier == "quick" else 20000
+    texts, mlines, fams = [], [], []
+    for i in range(n):
+        prog = slicegen.Gen(random.Random(rng.randrange(1 << 60)), depth=2, foreign_attrs=False).program()
+        sites = attribute_sites(prog)
+        k = rng.choice([0, 1, 1, 1, 2, 2, 3, 5])
+        chosen = []
+        for _ in range(k):
+            place, returns, lst = rng.choice(sites)
+            if rng.random() < 0.5:     # aim: the places an attribute is made for
+                want = {"Operation": ["oneway", "compress", "slicedFormat", "deprecated", "allow"], "SliceFile": ["allow", "deprecated"], "TypeRef": ["x::foreign", "allow", "deprecated"]}.get(place, ["deprecated", "allow"])
+                cands = [a for a in ATTR_POOL if a[0] in want]
+            else:
+                cands = ATTR_POOL
+            d, args = rng.choice(cands)
+            lst.append((d, list(args)))
+            if rng.random() < 0.15:
+                lst.append(rng.choice([(d, list(args)), rng.choice(cands)]))    # a repeat on the same element
+            chosen.append(place + ":" + d)
+        els = [(p, r, l) for p, r, l in attribute_sites(prog) if l]
+        mlines.append("attrs %d %s" % (len(els), " ".join("%s %d %d %s" % (p, 1 if r else 0, len(l), " ".join("%s %d %s" % (hx(d) if d else "-", len(a), " ".join(hx(x) if x else "-" for x in a)) for d, a in l)) for p, r, l in els)))
+        texts.append(slicegen.render(prog))
+        fams.append("+".join(sorted(set(chosen))) if len(chosen) <= 1 else "several")
+    mlines = [" ".join(l.split()) for l in mlines]
+    m = core.run_model("validate", mlines, chunk=2000)
+    o = core.run_impl("diags", ["diags - " + " ".join(hx(t) for t in ts) for ts in texts], chunk=300, timeout=120)
+    ck.stream("attributes", description="well-formed generated programs with 0..5 attributes from a pool (the five built-in directives with right and wrong argument counts and arguments, wrong-case spellings, "
+              "unknown directives with and without a scope prefix) written on randomly chosen elements of every kind (file, module, definitions, fields, enumerators, operations with and without return values, parameters, "
+              "return members, type references at any depth), some repeated on the same element; observable: the attribute error codes (E023-E028) against the model (the same codes, each at least as often), and no other error")
+    seen = {}
+    for ts, ml, fam, mo, oo in zip(texts, mlines, fams, m, o):
+        ck.count("attributes", ml, kind=fam if fam.count(":") <= 1 and len(fam) < 40 else "several")
+        dl = parse_diags(oo)
+        if dl is None:
+            ck.violation("attributes", "crash", "\n--\n".join(ts), mo, oo[:200], signature={"observable": oo.split(" ")[0]})
+            continue
+        errs = sorted(d["code"] for d in dl if d["level"] == "Error")
+        exp = sorted(mo.split(" ")) if mo != "ok" else []
+        seen[bool(exp)] = seen.get(bool(exp), 0) + 1
+        # the same defect may be reported once per use (an attribute on an alias's type is reported at every reference to the alias):
+        # the codes must be the model's, each at least as often as the model reports it
+        if set(exp) != set(errs) or any(errs.count(c) < exp.count(c) for c in set(exp)):
+            fam2 = "ill-formed-attribute-accepted" if exp and not errs else ("legal-attribute-rejected" if errs and not exp else "attribute-codes-differ")
+            ck.violation("attributes", fam2, "\n--\n".join(ts), " ".join(exp) or "accepted", " ".join(errs) or "accepted", signature={"expected": " ".join(sorted(set(exp))), "observed": " ".join(sorted(set(errs)))}, detail=ml[:300])
+    if seen.get(True, 0) < n // 10 or seen.get(False, 0) < n // 10:
+        ck.violation("attributes", "generator-vacuous", repr(seen), "both accepted and rejected programs in quantity", repr(seen), kind="correspondence")
+    ck.samples.append({"stream": "attributes", "case": texts[-1], "model_input": mlines[-1][:300], "model": m[-1], "impl": o[-1][:200]})
+
+    # the module rule: a file's definitions need a module declaration, and it comes first
+    cases = []
+    for i in range(120 if ck.tier == "quick" else 1200):
+        prog = slicegen.Gen(random.Random(rng.randrange(1 << 60)), nfiles=1, depth=2, foreign_attrs=False).program()
+        text = slicegen.render(prog)[0]
+        lines_ = text.split("\n")
+        mi = next(j for j, l in enumerate(lines_) if l.startswith("module ") or " module " in l)
+        body = lines_[:mi] + lines_[mi + 1:]
+        how = rng.choice(["as-written", "no-module", "module-last", "module-after-first-definition", "module-twice", "comment-before-module"])
+        if how == "as-written":
+            t, ok = text, True
+        elif how == "no-module":
+            t, ok = "\n".join(body), False
+        elif how == "module-last":
+            t, ok = "\n".join(body + [lines_[mi]]) + "\n", False
+        elif how == "module-after-first-definition":
+            t, ok = "struct Early%d {}\n" % i + text, False
+        elif how == "module-twice":
+            t, ok = text + lines_[mi] + "\nstruct Late%d {}\n" % i, False
+        else:
+            t, ok = "// a comment\n\n" + text, True
+        cases.append((t, ok, how))
+    o2 = core.run_impl("diags", ["diags - " + hx(t) for t, _, _ in cases], chunk=200, timeout=120)
+    ck.stream("module-rule", description="single-file programs as written, without their module declaration, with it after the definitions, after a first definition, or written twice; observable: accepted, or rejected with a syntax error")
+    for (t, ok, how), oo in zip(cases, o2):
+        ck.count("module-rule", t, kind=how)
+        dl = parse_diags(oo)
+        if dl is None:
+            ck.violation("module-rule", "crash", t, "a verdict", oo[:200])
+            continue
+        errs = sorted({d["code"] for d in dl if d["level"] == "Error"})
+        if ok and errs:
+            ck.violation("module-rule", "well-formed-rejected", t, "accepted", " ".join(errs), signature={"how": how})
+        elif not ok and errs != ["E002"]:
+            ck.violation("module-rule", "module-rule-not-enforced", t, "rejected with a syntax error (E002)", " ".join(errs) or "accepted", signature={"how": how})
+
+
 def run(ck):
     rng = ck.rng
     n = 5000 if ck.tier == "quick" else 60000
@@ -306,4 +446,6 @@ def run(ck):
     ck.extra["exhaustive"] = True
     ck.extra["rule"] = ("bounded-exhaustive small-scope families (every tag/optional/compact assignment over <= 3 members, every stream placement over <= 3 parameters/returns, every primitive and compact-struct key to depth 2, "
                         "every primitive's min-1/min/max/max+1 enumerator value in two bases) + %d generated programs, 75%% with 1..3 injected violations out of 28 kinds. Distinct by model input." % n)
-    ck.partial.append("attribute rules (E023-E028), literal syntax (E030/E031) and the module-declaration rule are not part of the Coq rule model yet; type resolution and cycles are C03/C05")
+    attribute_stream(ck)
+    ck.partial.append("the attribute rules have a model of their own (Sema/Attributes.v, table regenerated from grammar/attributes/*.rs) and are exercised on otherwise well-formed programs; the module rule is exercised against the "
+                      "property's own reading (the parser model of C02 states it); literal syntax (E030/E031) is C02's; type resolution and cycles are C03/C05")
